@@ -312,7 +312,7 @@ class Exec:
 
     def oblige(self, st, kind, clause, goal, line, note=""):
         goal = S._t(goal)
-        if z3.is_true(goal):
+        if z3.is_true(goal) and kind != "post":
             return
         o = Obligation(self.unit, kind, clause, line, self.hyps(st), goal, note)
         o.path = list(st.trail)
